@@ -252,6 +252,79 @@ def rule_r3(ctx):
     return rr
 
 
+# fields whose evaluation the converter does not reproduce by design (annotations) or that are not
+# expressions evaluated at statement execution
+_NOT_EVALUATED = {"annotation", "returns", "type_comment", "type_params", "simple", "ctx", "lineno", "col_offset", "end_lineno", "end_col_offset"}
+
+
+def rule_r4(ctx):
+    """Zero is not once: a hole the template evaluates on some path must not silently disappear on
+    another, unless that path established that there is nothing to evaluate (field absent, list
+    empty, a literal constant)."""
+    from ..reference import asdl
+    from ..vals import UList, UNode
+
+    rr = RuleResult("C07-R4", "no path drops a sub-expression that other paths of the same statement evaluate")
+    rr.exhaustive = True
+    rr.floor = 10
+    T = ctx.tmpl
+    for ci, kinds, entry in T.all_pending():
+        paths = list(entry.ok_paths())
+        by_kind = {}
+        for pr in paths:
+            by_kind.setdefault(kinds_label(pr.extra["node"].kinds), []).append(pr)
+        for klabel, prs in by_kind.items():
+            if "|" in klabel:
+                continue
+            fields = [(f, tq[0]) for f, tq in asdl.FIELDS.get(klabel, {}).items()]
+            if not fields:
+                continue
+            per_path = []
+            for pr in prs:
+                evs, w = path_events(pr)
+                got = set()
+                for e in evs:
+                    pth = re.sub(r":[A-Za-z|]+", "", e.path or "")
+                    if pth.startswith(klabel + "."):
+                        got.add(re.split(r"[.\[]", pth[len(klabel) + 1:])[0])
+                per_path.append(got)
+            union = set().union(*per_path) if per_path else set()
+            for f, t in fields:
+                if f in _NOT_EVALUATED or t not in ("expr", "stmt") or f not in union or f in ("target", "targets"):
+                    continue  # (stores to targets are C13's subject)
+                rr.instances += 1
+                for pr, got in zip(prs, per_path):
+                    what = f"{klabel}.{f}|{short_ctx(pr, 60)}"
+                    if f in got:
+                        rr.ok(what, nontrivial=False)
+                        continue
+                    v = pr.extra["node"].fields.get(f)
+                    why = None
+                    if isinstance(v, UNode):
+                        if v.is_none:
+                            why = "absent"
+                        elif set(v.kinds) <= {"Constant"}:
+                            why = "a literal constant"
+                    elif isinstance(v, UList):
+                        iv = getattr(pr, "intervals", {}).get(f"len({v.path()})")
+                        if iv is not None and iv[1] is not None and iv[1] <= 0:
+                            why = "empty"
+                        elif any(k.startswith(("truthy:", "nonempty:")) and v.path() in k and val is False for k, val in pr.assign.items()):
+                            why = "empty"
+                        elif any(f"lowered({v.path()})" in k for k in pr.assign):
+                            why = "lowered to nothing (the path is conditioned on the length of the lowered block)"
+                    if why:
+                        rr.ok(what, sample={"rule": "C07-R4", "hole": f"{klabel}.{f}", "not emitted because": why})
+                    else:
+                        kinds_txt = kinds_label(v.kinds) if isinstance(v, UNode) else ""
+                        rr.fail(
+                            f"C07-R4|{klabel}|{f}|dropped",
+                            f"{ci.name}.get_result: on the path [{short_ctx(pr, 140)}] nothing is emitted for {klabel}.{f}{' (' + kinds_txt + ')' if kinds_txt and len(kinds_txt) < 60 else ''}, which other paths evaluate: its side effects are lost and constructs inside it are never seen by the rewriter (`f'{{log.append(1)}}'` as a statement; a `yield` inside it is accepted)",
+                            what=what,
+                        )
+    return rr
+
+
 def path_events_of(t):
     from ..semwalk import events_of
 
@@ -267,4 +340,4 @@ def rule_c05_protocol(ctx):
     return [c05.rule_r1(ctx), c05.rule_r23(ctx)]
 
 
-RULES = [("C07-R1", rule_r1), ("C07-R2", rule_r2), ("C07-R3", rule_r3), ("C05-protocol", rule_c05_protocol)]
+RULES = [("C07-R1", rule_r1), ("C07-R2", rule_r2), ("C07-R3", rule_r3), ("C07-R4", rule_r4), ("C05-protocol", rule_c05_protocol)]
